@@ -308,7 +308,9 @@ def eval_shard(args):
         f.write("\n].\nDefinition R := Eval vm_compute in run cases.\n")
         f.write('Goal True. idtac "@@BEGIN". exact I. Qed.\nPrint R.\nGoal True. idtac "@@END". exact I. Qed.\n')
     try:
-        rc, out = sh(["coqc", "-Q", COQ, "Cfg", p], cwd=workdir, timeout=3600)
+        # large list literals (e.g. 64K-byte payloads) can exhaust the default 8 MB stack of coqc
+        rc, out = sh("ulimit -s unlimited 2>/dev/null || ulimit -s 4000000 2>/dev/null; exec coqc -Q '%s' Cfg '%s'" % (COQ, p),
+                     cwd=workdir, timeout=3600)
     except subprocess.TimeoutExpired:
         return k, None, "coqc timed out on shard %d" % k
     m = re.search(r"@@BEGIN(.*)@@END", out, re.S)
